@@ -36,6 +36,9 @@ CHECKS["C08"] = dict(category="exploration", technique="Hypothesis-generated dat
 CHECKS["C04"] = dict(category="exploration", technique="Hypothesis-generated (storage configuration, history) pairs on the lock-step executor; oracle: independent CSV decoder and a fresh read-only instance on the file bytes == reference model, after every operation",
     text="Generated pairs of a CSV storage configuration (flush_on_insert x 4 encodings x 9 csv dialect option sets x auto_index, compact/default prefixes mixed) and a history of writes interleaved with early-stopping reads and reopens; after every returning operation (or after close when flush_on_insert is off) the file bytes are decoded by an independent reader and by a fresh TinyFlux and must equal the reference model, strings covering delimiters, quotes, CR/LF, non-ASCII and > 8 KiB values.",
     note="Trusts Python's csv and codecs for the independent reader; strings outside what the encoding/dialect can represent are outside the domain (discarded, counted).", design="3/C04")
+CHECKS["C16"] = dict(category="exploration", technique="Hypothesis-generated insert sequences under a run-time I/O recorder (names in tinyflux.storages rebound to proxies); metamorphic oracle: same inserts on an n-row database and on an empty twin must produce identical I/O call sequences; prefix and exact-bytes oracles on the file",
+    text="Each generated sequence of single/multiple, in-order/out-of-order, compact/default inserts, interleaved with early-stopping reads, runs on a database pre-populated with n rows (up to 2 000 quick / 50 000 thorough) and on an empty twin while every I/O call made by tinyflux.storages is recorded: old bytes must be a prefix of new bytes, the appended bytes must be exactly the encoded rows, no read/open/temp/copy/rename may occur, and the per-insert call sequence must be identical at both sizes.",
+    note="Observes I/O at the level of file-object methods and os/shutil calls made from tinyflux.storages (an audit hook turns I/O that bypasses the proxies into a harness error).", design="3/C16")
 NA = {}
 checks = []
 for p in props:
